@@ -8,6 +8,7 @@ I0 == NumI(0)  I1 == NumI(1)  I2 == NumI(2)  I3 == NumI(3)
 F15 == NumF("1.5", "1.5", 0, FALSE)
 F20 == NumF("2.0", "2", 2, TRUE)
 F30 == NumF("3.0", "3", 3, TRUE)
+FTINY == NumF("0.000001", "1e-06", 0, FALSE)
 
 \* ---------------------------------------------------------------- C04: macros
 H_M == { Hdr(<<DLet("a", I1), DLet("b", I2)>>, <<DReg("q", I3)>>, <<>>, <<>>),
@@ -66,9 +67,11 @@ H_A == { Hdr(<<DLet("a", I1)>>, <<DReg("q", I3), DSlice("r", "q", I1, I3, None),
                                    DIndex("s", "r", I1), DWhole("w", "r"), DSlice("t", "u", I1, I0, NumI(-1))>>, <<>>, ExactGates) }
 \* (m2: its parameter has the NAME of the constant that bounds the aliases; it is called with other values than the constant's)
 M_A == << MD("m1", <<"x", "y">>, {"seq"}, { G("X", <<Par("x")>>), G("X", <<QI("r", 0)>>), G("X", <<Qb("w", Par("y"))>>), G("X", <<QAl("s")>>) }, {}, 2),
-          MD("m2", <<"a">>, {"seq"}, { G("X", <<QAl("s")>>), G("X", <<QI("t", 0)>>), G("R", <<QI("r", 0), Par("a")>>) }, {}, 2) >>
+          MD("m2", <<"a">>, {"seq"}, { G("X", <<QAl("s")>>), G("X", <<QI("t", 0)>>), G("R", <<QI("r", 0), Par("a")>>) }, {}, 2),
+          \* m3 calls m1, whose formals have the SAME names, with other values, and goes on using its own y afterwards
+          MD("m3", <<"x", "y">>, {"seq"}, { G("m1", <<QI("r", 0), I1>>), G("X", <<Qb("w", Par("y"))>>), G("X", <<Par("x")>>) }, {}, 2) >>
 T_A == { G("X", <<QI("r", 1)>>), G("X", <<QAl("s")>>), G("CX", <<QI("w", 0), QI("t", 0)>>), G("m1", <<QI("r", 0), I1>>),
-         G("m1", <<QAl("s"), Let("a")>>), G("X", <<Qb("r", Let("a"))>>), G("m2", <<I2>>), G("m2", <<I0>>) }
+         G("m1", <<QAl("s"), Let("a")>>), G("X", <<Qb("r", Let("a"))>>), G("m2", <<I2>>), G("m2", <<I0>>), G("m3", <<QAl("s"), I0>>) }
 O_A == { OSeq, OPar, OLoop(I2, FALSE), OSub(I1) }
 
 \* ---------------------------------------------------------------- C10 / C11: all four passes have work to do
@@ -125,6 +128,8 @@ T_PM == { G("prepare_all", <<>>), G("measure_all", <<>>) }
 O_PM == { OSeq, OPar, OLoop(I2, FALSE), OLoop(I2, TRUE), OLoop(I0, FALSE) }
 \* loops only (zero-count and repeating) around prepare / measure events, exhaustive to 6 nodes
 O_L02 == { OLoop(I0, FALSE), OLoop(I2, FALSE) }
+\* nothing but repeating loops and subcircuit blocks, to 7 nodes and 3 levels: sibling loops that each begin with a nested loop
+O_LS == { OLoop(I2, FALSE), OSub(I1) }
 
 \* ---------------------------------------------------------------- execution: gates (C03)
 H_G == { Hdr(<<DLet("k", I1), DLet("j", I2)>>, <<DReg("q", I3), DSlice("r", "q", I2, I0, NumI(-1)), DIndex("s", "q", I1)>>, <<>>, ExactGates) }
@@ -140,7 +145,9 @@ O_G == { OSub(I1), OLoop(Let("j"), FALSE), OPar }
 T_G2 == { G("H", <<QI("q", 0)>>), G("H", <<QI("q", 2)>>), G("S", <<QI("q", 2)>>), G("CX", <<QI("q", 0), QI("q", 1)>>),
           G("CX", <<QI("q", 2), QI("q", 0)>>), G("F", <<QI("q", 2), QI("q", 0), QI("q", 1)>>),
           G("CCX", <<QI("q", 1), QI("q", 2), QI("q", 0)>>), G("CR", <<QI("q", 0), QI("q", 2), Let("k")>>),
-          G("R", <<QI("r", 0), I3>>) }
+          G("R", <<QI("r", 0), I3>>),
+          \* a rotation by a tiny REAL angle (outside the exact family: the gate must be applied, its state is not recomputed)
+          G("Pf", <<QI("q", 1), FTINY>>) }
 O_G2 == { OSub(I1) }
 \* constants in every position that decides WHICH qubit or matrix a gate gets, executed under override dictionaries:
 \* w = q[k:4] is bounded by a constant, r and s are literal views of w, j is an index and a loop count, k an angle
@@ -247,7 +254,8 @@ H_V == { Hdr(VBase, <<VReg, DSlice("r", "q", I1, I3, None), DIndex("s", "q", I2)
          Hdr(VBase, <<VReg, DSlice("w", "q", I0, Let("k"), None), DSlice("r", "w", I1, I3, None)>>, <<>>, ExactGates) }
 \* macro w's register parameter q SHADOWS register q: "X q[2]" inside w is a different reference from "X q[2]" inside b
 M_V == << MD("m", <<"x", "p">>, {"seq"}, { G("X", <<Qb("q", Par("p"))>>), G("R", <<Par("x"), Par("p")>>) }, {}, 1),
-          MD("b", <<>>, {"seq"}, { G("X", <<QI("q", 2)>>) }, {}, 1),
+          \* (b is called by some programs and not by others: an index that is a constant, in a body nobody calls)
+          MD("b", <<>>, {"seq"}, { G("X", <<QI("q", 2)>>), G("X", <<Qb("q", Let("k"))>>) }, {}, 1),
           MD("w", <<"q">>, {"seq"}, { G("X", <<QbP("q", I2)>>), G("X", <<QbP("q", I0)>>) }, {}, 1) >>
 T_V == { G("X", <<QI("q", 0)>>), G("X", <<QI("q", 2)>>), G("X", <<QI("q", 3)>>), G("X", <<Qb("q", NumI(-1))>>),
          G("X", <<Qb("q", Let("k"))>>), G("X", <<Qb("q", Let("a"))>>), G("m", <<QI("q", 2), I3>>), G("m", <<QI("q", 0), I1>>),
